@@ -505,6 +505,8 @@ void vf_case(uint64_t idx, vf_rng *r)
 			else if (c < 86) op = OpDefReply;
 			else if (c < 94) op = OpDefRelease;
 			else op = OpUnref;
+			/* mostly answer or defer an armed request before arming the next one */
+			if (op == OpArm && ctx_req && !vf_chance(r, 1, 4)) op = vf_chance(r, 1, 2) ? OpReply : OpDefer;
 			/* make progress: arm when nothing is outstanding and a send-type op was drawn */
 			if (!ctx_req && !ndef && (op == OpDefer || op == OpDefReply || op == OpDefRelease) ) op = OpArm;
 			if ((op == OpDefReply || op == OpDefRelease) && !ndef) op = OpReply;
@@ -550,4 +552,4 @@ void vf_case(uint64_t idx, vf_rng *r)
 	vf_sample("%s  => %d requests, %d accepted / %d rejected sends, %d defers, %d default replies", desc, nreq, n_accept, n_reject, n_defer, n_default);
 }
 
-uint64_t vf_cases(void) { return vf_thorough ? 1000000 : 20000; }
+uint64_t vf_cases(void) { return vf_thorough ? 1500000 : 150000; }
